@@ -307,6 +307,7 @@ def drive(mod, tier, seed, nproc=None):
     violations = []
     known_hits = {}
     seen_keys = set()
+    weakened = {}
     for cex in cexs:
         key = cex.get('key') or ('%s:%s' % (cex.get('job'), cex.get('obligation')))
         try:
@@ -325,11 +326,19 @@ def drive(mod, tier, seed, nproc=None):
             path = write_replay(prop, cex)
             violations.append((key, path, detail))
         elif ok is False:
-            harness_errors.append('counterexample did not reproduce on the real library '
-                                  '(encoding/stub suspect): %s [%s]' % (key, detail))
+            if cex.get('stronger_than_property'):
+                # the solver refuted a sub-claim that is strictly stronger than the property (e.g. exactness of an
+                # intermediate row); the property itself, evaluated on the real library for the solver's inputs, holds
+                weakened.setdefault(key, detail)
+            else:
+                harness_errors.append('counterexample did not reproduce on the real library '
+                                      '(encoding/stub suspect): %s [%s]' % (key, detail))
         else:
             harness_errors.append('replay inconclusive: %s [%s]' % (key, detail))
 
+    for key, detail in sorted(weakened.items()):
+        print('NOTE: stronger sub-claim refuted by the solver but the property holds on replay: %s [%s]' % (key, str(detail)[:200]),
+              flush=True)
     # --- known findings must still be findings (reported every run)
     for key, (k, detail) in sorted(known_hits.items()):
         print('KNOWN-FINDING: property=%s %s [%s]' % (prop, k['what'], key), flush=True)
@@ -379,6 +388,7 @@ def drive(mod, tier, seed, nproc=None):
         'stubs': meta.get('stubs', []),
         'samples': samples or [{'note': 'no solver obligation issued'}],
         'known_findings_reproduced': sorted(known_hits),
+        'subclaims_refuted_property_held_on_replay': sorted(weakened),
         'preflight': pre,
         'notes': notes[:20],
         'exhaustive': False,
